@@ -455,6 +455,9 @@ func genRawInputs(o hx.Opts, r *hx.Rand) []RawInput {
 		fq := append([]byte{byte(len(q) >> 8), byte(len(q))}, q...)
 		fa := append([]byte{byte(len(a) >> 8), byte(len(a))}, a...)
 		ins = append(ins, RawInput{Svc: "dns-proxy", Transport: "tcp", Via: "server", Shared: true, Segs: []hx.B{fq}, Reply: []hx.B{fa}})
+		// the backend's answer is cut short / is no framed answer at all: the query was relayed and must be recorded
+		ins = append(ins, RawInput{Svc: "dns-proxy", Transport: "tcp", Via: "server", Segs: []hx.B{fq}, Reply: []hx.B{fa[:len(fa)/2]}})
+		ins = append(ins, RawInput{Svc: "dns-proxy", Transport: "tcp", Via: "server", Segs: []hx.B{fq}, Reply: []hx.B{{0xff}}})
 		ins = append(ins, RawInput{Svc: "dns-proxy", Transport: "tcp", Via: "server", Shared: true, Segs: []hx.B{fq[:9], fq[9:]}, Reply: []hx.B{fa}})
 		ins = append(ins, RawInput{Svc: "dns-proxy", Transport: "udp", Via: "server", Shared: true, Segs: []hx.B{q}, Reply: []hx.B{a}})
 		ins = append(ins, RawInput{Svc: "copy", Transport: "tcp", Via: "server", Shared: true, Segs: []hx.B{hx.B("first segment, "), hx.B("second")}, Reply: []hx.B{hx.B("ok")}})
